@@ -22,7 +22,11 @@ import (
 //     hard link sees it);
 //   - a hard link names its target relative to the root and is bound when the
 //     whole archive has been read (so the target may come later); a hard link
-//     whose target never appears is not created.
+//     whose target never appears is not created;
+//   - a directory member at the name of a hard link whose target is not there
+//     at that moment creates the directory: a sequential extraction could not
+//     create that link, so the name is free (a later target does not bring the
+//     link back). Over a hard link whose target is there nothing changes.
 //
 // Everything else (a parent that is not a directory, a dangling or cyclic link
 // in parent position, other kinds of repetition, hard links to things that are
@@ -59,6 +63,7 @@ type oflags struct {
 	danglingThrough bool // a dangling hard link was placed through a symbolic link
 	lexMismatch     bool // a symlink target means something else lexically than it does in place
 	hardNotPlain    bool // a hard link whose target is not, at that moment, a regular file
+	hardViaLink     bool // a hard link whose target is, at that moment, reached only through a symbolic link
 	hardlinks       int
 }
 
@@ -250,6 +255,10 @@ func extract(ms []member) *otree {
 			case old == nil:
 				mk('d').kids = map[string]*onode{}
 			case old.kind == 'd':
+			case old.kind == 'h' && t.unbound(old):
+				// The link could not be created so far, so the name is free.
+				old.kind, old.target, old.kids, old.lit = 'd', "", map[string]*onode{}, lit
+				t.other("dir-over-unbound-hardlink")
 			default:
 				t.other("dir-over-nondir")
 			}
@@ -299,6 +308,9 @@ func extract(ms []member) *otree {
 			if r == nil || r.kind != 'f' {
 				t.flags.hardNotPlain = true
 			}
+			if r != nil && pathOf(r) != strings.Join(lexClean(m.Link), "/") {
+				t.flags.hardViaLink = true
+			}
 		case 'x':
 			if old != nil {
 				t.nonWF("special-over-existing")
@@ -309,6 +321,12 @@ func extract(ms []member) *otree {
 	}
 	t.bindHardLinks()
 	return t
+}
+
+// unbound: the target of the hard link l is not there (yet).
+func (t *otree) unbound(l *onode) bool {
+	r, _ := t.resolve(lexClean(l.target), false)
+	return r == nil
 }
 
 // bindHardLinks resolves every hard link now that all members are in. A link
@@ -413,12 +431,14 @@ func (t *otree) lexCheck(n *onode) {
 func (t *otree) writeThrough(n *onode, data []byte) {
 	hops := 0
 	cur := n
+	var via *onode // the last link of the chain
 	for cur.kind == 's' {
 		hops++
 		if hops > maxHops {
 			t.nonWF("file-over-symlink-loop")
 			return
 		}
+		via = cur
 		start := cur.parent
 		if strings.HasPrefix(cur.target, "/") {
 			start = t.root
@@ -447,6 +467,11 @@ func (t *otree) writeThrough(n *onode, data []byte) {
 			return
 		}
 		cur = nx
+	}
+	if via != nil && (cur.kind == 'f' || cur.kind == 'h') && cur.lit != strings.Join(via.lexTarget, "/") {
+		// The view looks the file up by the link's target name; it was
+		// registered under another spelling (placed through a link).
+		t.flags.aliasDup = true
 	}
 	switch cur.kind {
 	case 'f':
